@@ -30,6 +30,7 @@ type c18Filter struct {
 	Redis    string `json:"redis"` // "" memory, else a key into the servers map + "/db"
 	Abs      uint32 `json:"abs"`
 	Chain    string `json:"chain_name"`
+	Keys     string `json:"keys,omitempty"` // "" by position (even: inline JWKS, odd: fetched) | "static" | "fetcher"
 }
 
 type c18Layout struct {
@@ -64,7 +65,7 @@ func newC18World(l c18Layout) (*c18World, error) {
 			AbsoluteSessionTimeout: f.Abs}
 		key := c18Key(i)
 		w.keys = append(w.keys, key)
-		if i%2 == 0 {
+		if f.Keys == "static" || (f.Keys == "" && i%2 == 0) {
 			oc.JwksConfig = &oidcv1.OIDCConfig_Jwks{Jwks: jwksDoc(&key.PublicKey, keys().kid)}
 		} else {
 			idp.setJWKS(jwksDoc(&key.PublicKey, keys().kid))
@@ -205,6 +206,41 @@ func (w *c18World) loginAt(l c18Layout, i int) (string, error) {
 
 func sameStoreExpected(a, b c18Filter) bool { return a.Redis == b.Redis }
 
+// ownKeySets: several filters served by ONE key provider (as cmd/main.go wires it), each configured with the key set
+// of its own identity provider only - all inline, all fetched, mixed - and logins at them in every order. A login
+// completes with a token signed by the filter's own provider and with none signed by another filter's provider.
+func ownKeySets(r *Run, tag string) {
+	for _, kinds := range [][]string{{"static", "static"}, {"fetcher", "fetcher"}, {"static", "fetcher", "static"}, {"fetcher", "static", "fetcher"}} {
+		for _, order := range []string{"forward", "backward"} {
+			l := c18Layout{Name: "own key sets " + strings.Join(kinds, "+") + " " + order}
+			for i, k := range kinds {
+				n := string(rune('a' + i))
+				l.Filters = append(l.Filters, c18Filter{Name: n, Prefix: "p" + n, ClientID: "client-" + n, Redis: fmt.Sprintf("r%d/0", i), Keys: k})
+			}
+			w, err := newC18World(l)
+			if err != nil {
+				r.Violate(tag+" could not assemble the service for a valid multi-filter configuration", map[string]any{"layout": l, "error": err.Error()})
+				continue
+			}
+			for k := range l.Filters {
+				i := k
+				if order == "backward" {
+					i = len(l.Filters) - 1 - k
+				}
+				for rep := 0; rep < 2; rep++ { // twice: whatever the first login left behind in the provider must not matter
+					if _, err := w.loginAt(l, i); err != nil {
+						r.Violate(tag+" an ID token is accepted or refused by a filter on the strength of another filter's key set: "+err.Error(),
+							map[string]any{"layout": l, "filter": l.Filters[i].Name, "login_order": order})
+					}
+					r.Dist["own-key-login"]++
+				}
+			}
+			r.Case(l.Name)
+			w.Close()
+		}
+	}
+}
+
 func runC18(r *Run) {
 	layouts := []c18Layout{
 		{Name: "two memory filters", Filters: []c18Filter{{Name: "a", Prefix: "pa", ClientID: "client-a"}, {Name: "b", Prefix: "pb", ClientID: "client-b", Abs: 1}}},
@@ -216,6 +252,7 @@ func runC18(r *Run) {
 		{Name: "three filters", Filters: []c18Filter{{Name: "a", Prefix: "pa", ClientID: "client-a"}, {Name: "b", Prefix: "pb", ClientID: "client-b", Redis: "r1/2"}, {Name: "c", Prefix: "pc", ClientID: "client-c", Redis: "r1/3", Chain: "chain-1"}}},
 		{Name: "same prefix, disjoint stores", Filters: []c18Filter{{Name: "a", Prefix: "p", ClientID: "client-a", Redis: "r1/0"}, {Name: "b", Prefix: "p", ClientID: "client-b", Redis: "r2/0"}}},
 	}
+	ownKeySets(r, "[C18]")
 	reps := scale(r, 1, 10)
 	for rep := 0; rep < reps; rep++ {
 		for _, l := range layouts {
